@@ -130,50 +130,117 @@ impl SScript {
     }
 }
 
-type SL = SampledLFU<u64, DynKH, DynBH>;
+/// the operations of the tracker behind one object-safe face, so that every constructor
+/// family (default / custom key hasher x default / custom index hasher) is exercised
+trait Sampled {
+    fn inc_h(&mut self, h: u64, c: i64);
+    fn inc_k(&mut self, k: u64, c: i64);
+    fn upd_h(&mut self, h: u64, c: i64) -> bool;
+    fn upd_k(&mut self, k: u64, c: i64) -> bool;
+    fn rem_h(&mut self, h: u64) -> Option<i64>;
+    fn rem_k(&mut self, k: u64) -> Option<i64>;
+    fn clear_(&mut self);
+    fn set_max(&self, m: i64);
+    fn max(&self) -> i64;
+    fn room(&self, c: i64) -> i64;
+    fn fill(&mut self, v: Vec<(u64, i64)>) -> Vec<(u64, i64)>;
+    fn hk(&self, k: u64) -> u64;
+}
+impl<KH: caches::lfu::KeyHasher<u64>, S: std::hash::BuildHasher> Sampled for SampledLFU<u64, KH, S> {
+    fn inc_h(&mut self, h: u64, c: i64) {
+        self.increment_hashed_key(h, c)
+    }
+    fn inc_k(&mut self, k: u64, c: i64) {
+        self.increment(&k, c)
+    }
+    fn upd_h(&mut self, h: u64, c: i64) -> bool {
+        self.update_hashed_key(h, c)
+    }
+    fn upd_k(&mut self, k: u64, c: i64) -> bool {
+        self.update(&k, c)
+    }
+    fn rem_h(&mut self, h: u64) -> Option<i64> {
+        self.remove_hashed_key(h)
+    }
+    fn rem_k(&mut self, k: u64) -> Option<i64> {
+        self.remove(&k)
+    }
+    fn clear_(&mut self) {
+        self.clear()
+    }
+    fn set_max(&self, m: i64) {
+        self.update_max_cost(m)
+    }
+    fn max(&self) -> i64 {
+        self.get_max_cost()
+    }
+    fn room(&self, c: i64) -> i64 {
+        self.room_left(c)
+    }
+    fn fill(&mut self, v: Vec<(u64, i64)>) -> Vec<(u64, i64)> {
+        self.fill_sample(v)
+    }
+    fn hk(&self, k: u64) -> u64 {
+        self.hash_key(&k)
+    }
+}
 
-fn mk_sampled(sc: &SScript) -> SL {
-    let kh = DynKH(DynBH::new(HKind::Ident));
-    match sc.ctor {
-        // every constructor family; the ones that fix the sample size are used with 5
-        _ => SampledLFU::with_samples_and_key_hasher_and_hasher(
-            sc.max_cost,
-            sc.samples,
-            kh,
-            DynBH::new(if sc.ctor % 2 == 0 { HKind::Fnv } else { HKind::Zero }),
-        ),
+/// returns the tracker and the sample size it was really built with (some constructors fix 5)
+fn mk_sampled(sc: &SScript) -> (Box<dyn Sampled>, usize) {
+    let kh = || DynKH(DynBH::new(HKind::Ident));
+    let bh = || DynBH::new(HKind::Zero);
+    match sc.ctor % 8 {
+        0 => (Box::new(SampledLFU::with_samples_and_key_hasher_and_hasher(sc.max_cost, sc.samples, kh(), DynBH::new(HKind::Fnv))), sc.samples),
+        1 => (Box::new(SampledLFU::with_samples_and_key_hasher_and_hasher(sc.max_cost, sc.samples, kh(), bh())), sc.samples),
+        2 => (Box::new(SampledLFU::<u64>::new(sc.max_cost)), 5),
+        3 => (Box::new(SampledLFU::<u64>::with_samples(sc.max_cost, sc.samples)), sc.samples),
+        4 => (Box::new(SampledLFU::<u64, _, DynBH>::with_hasher(sc.max_cost, bh())), 5),
+        5 => (Box::new(SampledLFU::<u64, _, DynBH>::with_samples_and_hasher(sc.max_cost, sc.samples, bh())), sc.samples),
+        6 => (Box::new(SampledLFU::<u64, DynKH>::with_key_hasher(sc.max_cost, kh())), 5),
+        _ => (Box::new(SampledLFU::<u64, DynKH>::with_samples_and_key_hasher(sc.max_cost, sc.samples, kh())), sc.samples),
     }
 }
 
 /// run one script; returns (violation, monitored ops)
 pub fn run_sampled(sc: &SScript, cov: &mut Cov) -> Option<(String, String, usize)> {
-    let mut real = mk_sampled(sc);
+    let (mut real, samples) = mk_sampled(sc);
+    let sc_samples = samples;
     let mut model: HashMap<u64, i64> = HashMap::new();
     let mut max = sc.max_cost;
     let probes = [0i64, 1, -7, 1000, 1 << 33];
     for (i, op) in sc.ops.iter().enumerate() {
         let was = |k: &u64| model.contains_key(k);
+        // key-API operations address the entry of the key's hash
+        let hk = |real: &dyn Sampled, op: &SOp| -> Option<u64> {
+            match op {
+                SOp::IncH(h, _) | SOp::UpdH(h, _) | SOp::RemH(h) => Some(*h),
+                SOp::IncK(k, _) | SOp::UpdK(k, _) | SOp::RemK(k) => Some(real.hk(*k)),
+                _ => None,
+            }
+        };
+        let target = hk(real.as_ref(), op);
         let pre_class = match op {
-            SOp::IncH(h, _) | SOp::IncK(h, _) | SOp::UpdH(h, _) | SOp::UpdK(h, _) | SOp::RemH(h) | SOp::RemK(h) => {
-                if was(h) { "tracked" } else { "untracked" }
-            }
             SOp::Fill(v) => {
-                if v.len() > sc.samples { "input>samples" } else if v.len() == sc.samples { "input=samples" } else if v.len() + model.len() >= sc.samples { "input<samples,enough" } else { "input<samples,short" }
+                if v.len() > sc_samples { "input>samples" } else if v.len() == sc_samples { "input=samples" } else if v.len() + model.len() >= sc_samples { "input<samples,enough" } else { "input<samples,short" }
             }
-            _ => "-",
+            _ => match target {
+                Some(h) => if was(&h) { "tracked" } else { "untracked" },
+                None => "-",
+            },
         };
         let r: Result<Option<String>, String> = guarded(|| {
             match op {
                 SOp::IncH(h, c) => {
-                    real.increment_hashed_key(*h, *c);
+                    real.inc_h(*h, *c);
                     model.insert(*h, *c);
                 }
-                SOp::IncK(h, c) => {
-                    real.increment(h, *c);
-                    model.insert(*h, *c);
+                SOp::IncK(k, c) => {
+                    real.inc_k(*k, *c);
+                    model.insert(target.unwrap(), *c);
                 }
-                SOp::UpdH(h, c) | SOp::UpdK(h, c) => {
-                    let got = if matches!(op, SOp::UpdH(..)) { real.update_hashed_key(*h, *c) } else { real.update(h, *c) };
+                SOp::UpdH(_, c) | SOp::UpdK(_, c) => {
+                    let h = &target.unwrap();
+                    let got = if let SOp::UpdH(hh, _) = op { real.upd_h(*hh, *c) } else if let SOp::UpdK(kk, _) = op { real.upd_k(*kk, *c) } else { false };
                     let exp = model.contains_key(h);
                     if exp {
                         model.insert(*h, *c);
@@ -182,30 +249,31 @@ pub fn run_sampled(sc: &SScript, cov: &mut Cov) -> Option<(String, String, usize
                         return Some(format!("{} returned {} but the key was {}", op.name(), got, if exp { "tracked" } else { "not tracked" }));
                     }
                 }
-                SOp::RemH(h) | SOp::RemK(h) => {
-                    let got = if matches!(op, SOp::RemH(_)) { real.remove_hashed_key(*h) } else { real.remove(h) };
+                SOp::RemH(_) | SOp::RemK(_) => {
+                    let h = &target.unwrap();
+                    let got = if let SOp::RemH(hh) = op { real.rem_h(*hh) } else if let SOp::RemK(kk) = op { real.rem_k(*kk) } else { None };
                     let exp = model.remove(h);
                     if got != exp {
                         return Some(format!("{} returned {:?}, the recorded cost was {:?}", op.name(), got, exp));
                     }
                 }
                 SOp::Clear => {
-                    real.clear();
+                    real.clear_();
                     model.clear();
                 }
                 SOp::Max(m) => {
-                    real.update_max_cost(*m);
+                    real.set_max(*m);
                     max = *m;
                 }
                 SOp::Fill(input) => {
-                    let out = real.fill_sample(input.clone());
+                    let out = real.fill(input.clone());
                     if out.len() < input.len() || out[..input.len()] != input[..] {
                         return Some(format!("fill_sample did not return its input unchanged as a prefix: in {:?} out {:?}", input, out));
                     }
                     let app = &out[input.len()..];
-                    if input.len() >= sc.samples {
+                    if input.len() >= sc_samples {
                         if !app.is_empty() {
-                            return Some(format!("fill_sample appended {:?} although the input already has {} >= {} pairs", app, input.len(), sc.samples));
+                            return Some(format!("fill_sample appended {:?} although the input already has {} >= {} pairs", app, input.len(), sc_samples));
                         }
                     } else {
                         let mut seen = HashSet::new();
@@ -219,20 +287,20 @@ pub fn run_sampled(sc: &SScript, cov: &mut Cov) -> Option<(String, String, usize
                                 return Some(format!("fill_sample appended key {} twice", k));
                             }
                         }
-                        let exp_len = sc.samples.min(input.len() + model.len());
+                        let exp_len = sc_samples.min(input.len() + model.len());
                         if out.len() != exp_len {
-                            return Some(format!("fill_sample returned {} pairs, expected min(samples={}, input {} + tracked {}) = {}", out.len(), sc.samples, input.len(), model.len(), exp_len));
+                            return Some(format!("fill_sample returned {} pairs, expected min(samples={}, input {} + tracked {}) = {}", out.len(), sc_samples, input.len(), model.len(), exp_len));
                         }
                     }
                 }
             }
             // ledger
             let sum: i64 = model.values().sum();
-            if real.get_max_cost() != max {
-                return Some(format!("get_max_cost() = {}, last update_max_cost/constructor value {}", real.get_max_cost(), max));
+            if real.max() != max {
+                return Some(format!("get_max_cost() = {}, last update_max_cost/constructor value {}", real.max(), max));
             }
             for c in probes {
-                let got = real.room_left(c);
+                let got = real.room(c);
                 let exp = max - sum - c;
                 if got != exp {
                     return Some(format!("room_left({}) = {} but max_cost {} - recorded costs {} - {} = {}", c, got, max, sum, c, exp));
@@ -243,7 +311,7 @@ pub fn run_sampled(sc: &SScript, cov: &mut Cov) -> Option<(String, String, usize
         cov.monitored += 1;
         cov.steps += 1;
         cov.ops.bump(op.name());
-        cov.triples.insert(format!("{}|sampled|{}|samples{}", pre_class, op.name(), sc.samples.min(6)));
+        cov.triples.insert(format!("{}|sampled|{}|samples{}|ctor{}", pre_class, op.name(), sc_samples.min(6), sc.ctor % 8));
         match r {
             Err(p) => return Some(("panic".into(), format!("{} panicked: {}", op.text(), p), i)),
             Ok(Some(d)) => return Some((format!("ledger-{}", op.name()), format!("after {} ({}): {}", op.text(), pre_class, d), i)),
@@ -285,7 +353,7 @@ fn gen_sampled(rng: &mut Rng) -> SScript {
         };
         ops.push(op);
     }
-    SScript { max_cost: rng.below(1000) as i64, samples, ctor: rng.below(4) as u8, ops }
+    SScript { max_cost: rng.below(1000) as i64, samples, ctor: rng.below(8) as u8, ops }
 }
 
 fn shrink_script<S, F: Fn(&S) -> usize, G: Fn(&S, usize) -> S, P: Fn(&S) -> bool>(s: S, len: F, without: G, fails: P) -> S {
